@@ -12,7 +12,7 @@ def run(report, replay=None):
     n = 4000 if report.tier == 'thorough' else 420
     names = ('loops-counted', 'loops-while-break', 'loops-lights', 'nested-break-lists', 'return-in-loops')
     fixed = [r for r in corpus.records() if r['profile'].split(':')[1] in names]
-    lang_props.run_profiles(report, [('loops', n, 30)], fixed)
+    lang_props.run_profiles(report, [('loops', n, 30), ('nested', n // 5, 25)], fixed)
     report.assumptions += lang_props.ASSUMPTIONS + ['a full turn in raw units may be 65535 or 65536']
 
 
